@@ -22,7 +22,7 @@ from . import vsym
 from .vsym import SymReal, NotModelled, lift, rv
 
 _is_sym = lambda x: isinstance(x, SymReal)  # noqa: E731
-BAND = 1e-6      # see _optimize: infeasible-by-less-than-BAND instances are excluded (tolerance band)
+BAND = 1e-3      # see _optimize: instances infeasible by less than BAND (absolute, bounds are O(10)) are excluded: GLPK was seen to call an LP infeasible by 1.5e-4 optimal
 
 
 def _numeric_or_none(v, what):
@@ -156,7 +156,9 @@ class LinExpr(object):
         return out
 
     def set_coef(self, v, co):
-        if _conc_zero(co):
+        # GLPK does not store zero coefficients.  A symbolic coefficient that may be zero forks the path here
+        # (zero: entry dropped / non-zero: stored), so that the two cases are explored as GLPK would see them.
+        if _conc_zero(co) or (isinstance(co, SymReal) and bool(co == 0)):
             self.c.pop(v, None)
         else:
             self.c[v] = co
